@@ -59,14 +59,34 @@ def _recursive_calls(node_or_body, name: str) -> int:
     return sum(1 for st in nodes for n in ast.walk(st) if isinstance(n, ast.Call) and dotted(n.func) == name)
 
 
-def _const_subscript_stores(fn: ast.AST, var: str) -> dict[str, ast.AST]:
+def _const_subscript_stores(fn: ast.AST, var: str) -> dict[str, ast.expr]:
+    """key -> value expression, for constant keys added to the dict `var`: var["k"] = ..., var.update({"k": ...}), var.update(k=...),
+    var = {**other, "k": ...}.  Any other mutation of `var` is outside the analyser's reach."""
     out = {}
     for st in walk_no_nested(fn):
         if isinstance(st, ast.Assign):
             for t in st.targets:
-                if isinstance(t, ast.Subscript) and isinstance(t.value, ast.Name) and t.value.id == var and \
-                        isinstance(t.slice, ast.Constant) and isinstance(t.slice.value, str):
-                    out[t.slice.value] = st
+                if isinstance(t, ast.Subscript) and isinstance(t.value, ast.Name) and t.value.id == var:
+                    if not (isinstance(t.slice, ast.Constant) and isinstance(t.slice.value, str)):
+                        raise AnalysisError(f"store into `{var}` under a computed key: `{norm_text(st)[:60]}`")
+                    out[t.slice.value] = st.value
+                if isinstance(t, ast.Name) and t.id == var and isinstance(st.value, ast.Dict):
+                    for k, v in zip(st.value.keys, st.value.values):
+                        if isinstance(k, ast.Constant) and isinstance(k.value, str):
+                            out[k.value] = v
+                        elif k is not None:
+                            raise AnalysisError(f"`{var}` built with a computed key")
+        if isinstance(st, ast.Call) and isinstance(st.func, ast.Attribute) and isinstance(st.func.value, ast.Name) \
+                and st.func.value.id == var and st.func.attr in ("update", "setdefault", "__setitem__"):
+            ok = st.func.attr == "update" and all(k.arg is not None for k in st.keywords) and \
+                all(isinstance(a, ast.Dict) and all(isinstance(k, ast.Constant) for k in a.keys) for a in st.args)
+            if not ok:
+                raise AnalysisError(f"`{norm_text(st)[:60]}` changes `{var}` in a way the analyser does not follow")
+            for a in st.args:
+                for k, v in zip(a.keys, a.values):
+                    out[k.value] = v
+            for k in st.keywords:
+                out[k.arg] = k.value
     return out
 
 
@@ -228,12 +248,19 @@ def run(ctx) -> None:
              and any(isinstance(c, ast.Call) and dotted(c.func) == "decode_types" for c in ast.walk(st.value))]
     ctx.require(len(rvars) == 1, f"{canon.qualname}: decoded metadata variable not found")
     rvar = rvars[0]
-    popped: dict[str, tuple[ast.Call, bool]] = {}
+    popped: dict[str, tuple[ast.AST, bool]] = {}
     for n in walk_no_nested(canon.node):
         if isinstance(n, ast.Call) and isinstance(n.func, ast.Attribute) and n.func.attr == "pop" and \
                 isinstance(n.func.value, ast.Name) and n.func.value.id == rvar and n.args and \
                 isinstance(n.args[0], ast.Constant):
             popped[n.args[0].value] = (n, len(n.args) > 1 or bool(n.keywords))
+        if isinstance(n, ast.Delete):
+            for t in n.targets:
+                if isinstance(t, ast.Subscript) and isinstance(t.value, ast.Name) and t.value.id == rvar and \
+                        isinstance(t.slice, ast.Constant):
+                    guarded = any(isinstance(i, ast.If) and any(x is n for x in ast.walk(i))
+                                  for i in walk_no_nested(canon.node))
+                    popped[t.slice.value] = (n, guarded)
     ctx.require(len(popped) >= 2, f"{canon.qualname}: pops on the metadata dict not found")
     # the rest is handed back as metadata
     handed = any(isinstance(k, ast.keyword) and k.arg == "metadata" and isinstance(k.value, ast.Name)
@@ -255,10 +282,9 @@ def run(ctx) -> None:
                              "KeyError on every file (pop without default)"), key_detail="unwritten")
 
     # ---------------- R-STOREKEYS
-    wpre = _fstring_prefixes(clist.node)
-    rpre = _fstring_prefixes(canon.node)
-    wnames = {p for p in wpre if p in ("metadata", "array") or p.startswith(("meta", "arr"))}
-    rnames = {p for p in rpre if p in ("metadata", "array") or p.startswith(("meta", "arr"))}
+    # store keys are the identifier-like f"<prefix>{counter}" strings (error messages are not identifiers)
+    wnames = {p for p in _fstring_prefixes(clist.node) if p.isidentifier()}
+    rnames = {p for p in _fstring_prefixes(canon.node) if p.isidentifier()}
     ctx.require(len(wnames) >= 2 and len(rnames) >= 2, "to_zarr/_from_zarr_canonical: f-string store keys not found")
     ctx.check(wnames == rnames, "R-STOREKEYS", "store key prefixes", canon.where,
               f"writer and reader both use {sorted(wnames)}",
@@ -312,12 +338,15 @@ def run(ctx) -> None:
                           "counterpart", key_detail="unpaired")
             continue
         n_pairs += 1
-        pk, uk = _converted_keys(p), _converted_keys(u)
-        legacy = {"type"} if c.name == "ArrayObject" else set()
-        ctx.check(pk == uk - legacy, "R-KWARGS", f"{c.qualname}:keys", p.where,
-                  f"pack and unpack both convert {sorted(pk)}",
-                  f"_pack_kwargs converts {sorted(pk)} but _unpack_kwargs converts {sorted(uk - legacy)}",
+        (pk, pdrop), (uk, udrop) = _converted_keys(p), _converted_keys(u)
+        ctx.check(pk == uk, "R-KWARGS", f"{c.qualname}:keys", p.where,
+                  f"pack and unpack both convert {sorted(pk)}"
+                  + (f"; unpack ignores {sorted(udrop)}" if udrop else ""),
+                  f"_pack_kwargs converts {sorted(pk)} but _unpack_kwargs converts {sorted(uk)}",
                   key_detail="keys")
+        ctx.check(not (pdrop or (udrop & pk)), "R-KWARGS", f"{c.qualname}:dropped", p.where,
+                  "no packed keyword is dropped",
+                  f"keywords dropped: pack {sorted(pdrop)}, unpack {sorted(udrop & pk)}", key_detail="dropped")
     ctx.require(n_pairs >= 2, f"only {n_pairs} _pack_kwargs/_unpack_kwargs pairs found")
     bp, bu = repo.method(ARR, "ArrayObject", "_pack_kwargs"), repo.method(ARR, "ArrayObject", "_unpack_kwargs")
     ctx.check(_key_codec(bp, "ensemble_axes_metadata") == "axis_to_dict" and
@@ -334,8 +363,8 @@ def run(ctx) -> None:
     reg.check_type_key(ctx, [repo.function(reg.AXES_MOD, "axis_to_dict")], [reader])
 
     # ---------------- R-TYPE-REGISTRY
-    ctx.require("type" in written and isinstance(written["type"].value, ast.Attribute)
-                and written["type"].value.attr == "__name__", f"{m2d.qualname}: the class name is not stored")
+    ctx.require("type" in written and isinstance(written["type"], ast.Attribute)
+                and written["type"].attr == "__name__", f"{m2d.qualname}: the class name is not stored")
     # how the reader resolves the popped type name
     name_vars = {st.targets[0].id for st in walk_no_nested(canon.node)
                  if isinstance(st, ast.Assign) and isinstance(st.targets[0], ast.Name)
@@ -370,9 +399,11 @@ def run(ctx) -> None:
     ctx.require(n_cls >= 8, f"only {n_cls} concrete ArrayObject classes found")
 
 
-def _converted_keys(f: FuncInfo) -> set[str]:
-    """Keyword names a pack/unpack method treats specially: kwargs["k"] = ... stores and `key == "k"` tests."""
-    out: set[str] = set()
+def _converted_keys(f: FuncInfo) -> tuple[set[str], set[str]]:
+    """(keyword names a pack/unpack method converts, names it drops): `kwargs["k"] = <conversion>` stores and
+    `key == "k"` arms; an arm whose body is `pass` drops the key."""
+    conv: set[str] = set()
+    drop: set[str] = set()
     for n in walk_no_nested(f.node):
         if isinstance(n, ast.Assign):
             for t in n.targets:
@@ -380,12 +411,13 @@ def _converted_keys(f: FuncInfo) -> set[str]:
                     # `kwargs["ensemble_axes_metadata"] = []` initialisation is not a conversion
                     if not (isinstance(n.value, (ast.List, ast.Tuple, ast.Dict)) and not getattr(n.value, "elts", None)
                             and not getattr(n.value, "keys", None)):
-                        out.add(t.slice.value)
-        if isinstance(n, ast.Compare) and len(n.ops) == 1 and isinstance(n.ops[0], ast.Eq):
-            for x in (n.left, n.comparators[0]):
+                        conv.add(t.slice.value)
+        if isinstance(n, ast.If) and isinstance(n.test, ast.Compare) and len(n.test.ops) == 1 and \
+                isinstance(n.test.ops[0], ast.Eq):
+            for x in (n.test.left, n.test.comparators[0]):
                 if isinstance(x, ast.Constant) and isinstance(x.value, str):
-                    out.add(x.value)
-    return out
+                    (drop if all(isinstance(b, ast.Pass) for b in n.body) else conv).add(x.value)
+    return conv, drop - conv
 
 
 def _key_codec(f: FuncInfo, key: str) -> Optional[str]:
